@@ -362,7 +362,7 @@ def relaxation_d_tau(tau, T1, T2, g=0):
     rT = tau * (1 / T2 + 2j * np.pi * g)
     rL = tau / T1
     mat, mat0 = evolution_operator(rT, rL, rL)
-    mat[..., 1] *= -rT / tau
+    mat[..., 1] *= -(1 / T2 + 2j * np.pi * g)
     mat[..., 0] = mat[..., 1].conj()
     mat[..., 2] *= -1 / T1
     mat0[..., 2] = -mat[..., 2]
@@ -407,7 +407,7 @@ def relaxation_d2_tau(tau, T1, T2, g=0):
     rT = tau * (1 / T2 + 2j * np.pi * g)
     rL = tau / T1
     mat, mat0 = evolution_operator(rT, rL, rL)
-    mat[..., 1] *= (rT / tau) ** 2
+    mat[..., 1] *= (1 / T2 + 2j * np.pi * g) ** 2
     mat[..., 0] = mat[..., 1].conj()
     mat[..., 2] *= 1 / T1**2
     mat0[..., 2] = -mat[..., 2]
